@@ -31,7 +31,9 @@ THEOREMS += ['CC.C16_gen_construct', 'CC.C16_gen_keep', 'CC.C16_gen_is_zero_node
     'CC.C16_gen_passiveNetwork', 'CC.C16_gen_defaults', 'CC.C16_gen_finite']
 LEAN_MODULE_EXTRA = ['CC.Properties.C16Gen', 'CC.Properties.C16Converse']
 THEOREMS += ['CC.C16_open_converse', 'CC.C16_open_iff']
-OPEN_STATEMENTS = ['converse direction for short-circuit contraction (every solution of the contracted network extends to the original): not universally true — a branch parallel to a contracted short is dropped, and if it is an ideal source with V ≠ 0 the original has no solution; proved for open removal (C16_open_converse / C16_open_iff), covered per instance by the exact-solution oracle otherwise',
+OPEN_STATEMENTS = ['WHICH branches survive contraction (every non-contracted branch and every exempt element is kept): no theorem — a model that discards every branch would satisfy C16_short, C16_short_no_new_branch and C16_short_complete; survival is tied to the code by C16_gen_removeShort (generated = hand model) and judged per instance by the structural correspondence and the oracle (exempted_removed, order_or_duplicate)',
+                   'remove_ideal_* / passive_network as compositions, and "the input network is never modified": properties of the pure functional model, no theorem (the latter is judged by the oracle and by C20)',
+                   'converse direction for short-circuit contraction (every solution of the contracted network extends to the original): not universally true — a branch parallel to a contracted short is dropped, and if it is an ideal source with V ≠ 0 the original has no solution; proved for open removal (C16_open_converse / C16_open_iff), covered per instance by the exact-solution oracle otherwise',
                    'passive_network port-impedance equality as a theorem (needs the C06 port spec)']
 ASSUMPTIONS = [
     'hand-written model CC/Model/Transform.lean is tied to Network/transformers.py twice: by the translator (CC/Gen/Transformers.lean, regenerated every run, proved equal to the hand model by C16_gen_*) and by the structural correspondence',
